@@ -2,6 +2,7 @@ package main
 
 import (
 	"bufio"
+	"sync"
 	"encoding/json"
 	"flag"
 	"fmt"
@@ -182,21 +183,38 @@ func checkCmd(args []string) int {
 	os.RemoveAll(workDir)
 	results := runVCs(vcs, workDir, timeout, 8)
 	sort.Slice(results, func(i, j int) bool { return results[i].vc.Name < results[j].vc.Name })
-	// second chance for claimed obligations that did not discharge: alone on the machine, three times the budget
+	// second chance for claimed obligations that did not discharge (solver scheduling noise): three times
+	// the budget, a few at a time; skipped when many fail at once (then it is not noise)
 	if base0, err := loadBaseline(prop); err == nil && !*mkBaseline {
+		var retry []int
 		for i := range results {
 			r := &results[i]
 			if _, claimed := base0[r.vc.Name]; !claimed || r.vc.ExpectSat || r.vc.Run != nil || r.vc.Kind == "unsupported" {
 				continue
 			}
 			if r.res.Status == "unknown" || r.res.Status == "timeout" || r.res.Status == "error" {
-				file := filepath.Join(workDir, sanitizeFile(r.vc.Name)+".retry.smt2")
-				r2 := solve(r.vc.Script, file, 3*timeout, false)
-				if r2.Status == "unsat" {
-					r2.Output = "discharged on retry"
-					r.res = r2
-				}
+				retry = append(retry, i)
 			}
+		}
+		if len(retry) > 0 && len(retry) <= 6 {
+			var wg sync.WaitGroup
+			sem := make(chan struct{}, 3)
+			for _, i := range retry {
+				wg.Add(1)
+				go func(i int) {
+					defer wg.Done()
+					sem <- struct{}{}
+					defer func() { <-sem }()
+					r := &results[i]
+					file := filepath.Join(workDir, sanitizeFile(r.vc.Name)+".retry.smt2")
+					r2 := solve(r.vc.Script, file, 3*timeout, false)
+					if r2.Status == "unsat" {
+						r2.Output = "discharged on retry"
+						r.res = r2
+					}
+				}(i)
+			}
+			wg.Wait()
 		}
 	}
 
@@ -366,6 +384,10 @@ func checkCmd(args []string) int {
 	sort.Strings(missing)
 	for _, name := range missing {
 		if isFinding(name) != nil {
+			continue
+		}
+		if k := baseline[name]; strings.HasPrefix(k, "safe.") || k == "pre" || k == "inv" || k == "readframe" {
+			// run-time-safety obligations are numbered per operation; an operation that no longer exists needs no proof
 			continue
 		}
 		if baseline[name] == "frame" {
